@@ -25,7 +25,7 @@ def generate(streams, tier):
     card = [r.choice([1, 2, 2, 3, 3]) for _ in range(k)]
     rl = streams.s("labels")
     labels, mode = W.gen_labels(rl, k)
-    smode = weighted(rl, [("default", 2), ("str", 3), ("int", 2), ("mixed", 1), ("tuple", 1)])
+    smode = weighted(rl, [("default", 2), ("str", 3), ("int", 2), ("mixed", 1), ("tuple", 1), ("odd", 1)])
     states = [W.gen_states(rl, card[v], smode, allow_negative=True) if card[v] <= 5 else None for v in range(k)]
     universe = {"n": k, "card": card, "labels": labels, "states": states}
     rw = streams.s("workload")
